@@ -520,6 +520,113 @@ func leanTextListC(l []string) string {
 	return b.String()
 }
 
+// mwSharedResults: returns of package-level variables as the (first) result of the request handlers, and the shape of
+// handlePing's result.
+func mwSharedResults(root *pkgSrc) (shared []string, pingShape string) {
+	topSpecs := map[*ast.ValueSpec]bool{}
+	pkgVars := map[string]bool{}
+	for _, fname := range root.sortedFiles() {
+		for _, d := range root.files[fname].Decls {
+			if gd, ok := d.(*ast.GenDecl); ok && gd.Tok == token.VAR {
+				for _, sp := range gd.Specs {
+					if vs, ok := sp.(*ast.ValueSpec); ok {
+						topSpecs[vs] = true
+						for _, n := range vs.Names {
+							pkgVars[n.Name] = true
+						}
+					}
+				}
+			}
+		}
+	}
+	isPkgVar := func(e ast.Expr) (string, bool) {
+		for {
+			switch x := e.(type) {
+			case *ast.ParenExpr:
+				e = x.X
+				continue
+			case *ast.SelectorExpr: // a field of a package-level struct variable is as shared as the variable
+				e = x.X
+				continue
+			case *ast.IndexExpr:
+				e = x.X
+				continue
+			case *ast.UnaryExpr:
+				e = x.X
+				continue
+			}
+			break
+		}
+		id, ok := e.(*ast.Ident)
+		if !ok || !pkgVars[id.Name] {
+			return "", false
+		}
+		if id.Obj != nil {
+			vs, isSpec := id.Obj.Decl.(*ast.ValueSpec)
+			if !isSpec || !topSpecs[vs] {
+				return "", false // a local of the same name
+			}
+		}
+		return id.Name, true
+	}
+	recvs := map[string]bool{"mcpHandler": true, "toolManager": true, "promptManager": true, "resourceManager": true, "lifecycleManager": true}
+	pingShape = "missing"
+	var rows [][2]string
+	for _, fname := range root.sortedFiles() {
+		for _, d := range root.files[fname].Decls {
+			fd, ok := d.(*ast.FuncDecl)
+			if !ok || fd.Body == nil || fd.Recv == nil || !strings.HasPrefix(fd.Name.Name, "handle") {
+				continue
+			}
+			fn := funcName(fd)
+			if i := strings.Index(fn, "."); i < 0 || !recvs[fn[:i]] {
+				continue
+			}
+			ast.Inspect(fd.Body, func(n ast.Node) bool {
+				if _, ok := n.(*ast.FuncLit); ok {
+					return false
+				}
+				r, ok := n.(*ast.ReturnStmt)
+				if !ok || len(r.Results) == 0 {
+					return true
+				}
+				if v, is := isPkgVar(r.Results[0]); is {
+					rows = append(rows, [2]string{fn, v})
+				}
+				if fn == "mcpHandler.handlePing" {
+					shape := "other"
+					switch x := r.Results[0].(type) {
+					case *ast.CompositeLit:
+						shape = "literal"
+					case *ast.CallExpr:
+						if id, ok := x.Fun.(*ast.Ident); ok && id.Name == "make" {
+							shape = "make"
+						}
+					case *ast.Ident:
+						shape = "var:" + x.Name
+					}
+					if pingShape == "missing" || pingShape == shape {
+						pingShape = shape
+					} else {
+						pingShape = "other"
+					}
+				}
+				return true
+			})
+		}
+	}
+	sort.Slice(rows, func(i, j int) bool {
+		if rows[i][0] != rows[j][0] {
+			return rows[i][0] < rows[j][0]
+		}
+		return rows[i][1] < rows[j][1]
+	})
+	for _, r := range rows {
+		shared = append(shared, "("+leanText(r[0])+", "+leanText(r[1])+")")
+	}
+	return shared, pingShape
+}
+
 func genMiddlewareFacts(root *pkgSrc) {
 	shape := mwLoopShape(root)
 
@@ -711,6 +818,9 @@ func genMiddlewareFacts(root *pkgSrc) {
 	b.WriteString("/-- What `SSEServer.processRequestAsync` does before `s.mcpHandler.handleRequest(detachedCtx, request, session)`: `detach`, `roots-response-guard` (taken only by messages without a method), anything else by its kind; `missing-dispatch` when the hand-over is not a top-level statement. -/\ndef mwSSEProcessPrefix : List (List Nat) := " + leanTextListC(mwSSEProcessPrefix(root)) + "\n")
 	fmt.Fprintf(&b, "/-- In `SSEServer.handleMessage` the 202 is directly followed by the if-chain whose request branch is exactly `s.handleRequestMessage(ctx, rawMessage, session)`. -/\ndef mwSSEAckThenDispatch : Bool := %s\n", leanBool(mwSSEAckThenDispatch(root)))
 	fmt.Fprintf(&b, "/-- `select` statements in `httpServerHandler.handlePost` + `handlePostRequest` (the Streamable path from the POST to both `handleRequest` calls is straight-line code; 99 = a function is missing). -/\ndef mwStreamableDispatchSelects : Nat := %d\n", mwSelectCount(root, "httpServerHandler.handlePost", "httpServerHandler.handlePostRequest"))
+	shared, pingShape := mwSharedResults(root)
+	fmt.Fprintf(&b, "/-- Result-producing request handlers (methods named handle… of mcpHandler and of the tool / prompt / resource / lifecycle managers)\n    that `return` a PACKAGE-LEVEL VARIABLE as their result: (function, variable). A result object handed out to more than one request\n    is shared by every middleware's after-stage of all of them (a modification would not be for that request only). -/\ndef mwSharedResultReturns : List (List Nat × List Nat) := [%s]\n", strings.Join(shared, ", "))
+	fmt.Fprintf(&b, "/-- What `mcpHandler.handlePing` returns as its result: literal (a composite literal, fresh per call) | make | var:<name> | other | missing. -/\ndef mwPingResultShape : List Nat := %s\n", leanText(pingShape))
 	b.WriteString("end Mcp.Gen\n")
 	writeIfChanged("MiddlewareFacts.lean", b.String())
 }
